@@ -322,10 +322,44 @@ def _get_solver(fp):
     return _solver[1]
 
 
-def query(solver, enc, goal, model_vars=None):
+def query(solver, enc, goal, model_vars=None, fallback_prelude=None):
     script = "(push 1)\n" + "\n".join(enc.lines) + "\n(assert %s)\n(check-sat)\n" % goal
     res, model = solver.check(script, model_vars)
     solver.send("(pop 1)\n")
+    if res == "unknown" and fallback_prelude is not None:
+        # the incremental solver gives up on some FP goals that a fresh,
+        # non-incremental z3 (full preprocessing) decides in a second
+        return standalone(fallback_prelude, enc, goal, model_vars)
+    return res, model
+
+
+def standalone(prelude, enc, goal, model_vars=None, timeout_s=300):
+    import tempfile
+
+    body = "(set-logic ALL)\n" + prelude + "\n".join(enc.lines) + "\n(assert %s)\n(check-sat)\n" % goal
+    if model_vars:
+        body += "(get-value (%s))\n" % " ".join(model_vars)
+    with tempfile.NamedTemporaryFile("w", suffix=".smt2", delete=False) as f:
+        f.write(body)
+        path = f.name
+    try:
+        p = subprocess.run(["/usr/bin/z3", "-T:%d" % timeout_s, path], capture_output=True, text=True, timeout=timeout_s + 30)
+        out = p.stdout
+    except subprocess.TimeoutExpired:
+        out = "unknown"
+    finally:
+        os.unlink(path)
+    lines = out.splitlines()
+    if any(l.startswith("(error") for l in lines) and not (lines and lines[0] == "unsat"):
+        return "error:" + " ".join(lines[:2]), None
+    res = lines[0].strip() if lines else "unknown"
+    if res not in ("sat", "unsat", "unknown"):
+        res = "unknown"
+    model = None
+    if res == "sat" and model_vars:
+        from smt import parse_values
+
+        model = parse_values(" ".join(lines[1:]))
     return res, model
 
 
